@@ -3,6 +3,7 @@ size_t gz_i;
 size_t gz_j;
 size_t gz_k;
 bool gz_extended;
+civil_lookup gz_mt;
 size_t gz_hint;
 #pragma CPROVER check push
 #pragma CPROVER check disable "signed-overflow"
